@@ -633,6 +633,57 @@ def tick_reset_path() -> List[tuple]:
                                  else "does NOT register the link in self.links"])]
 
 
+STEP_CALLS = ("pre_timestep", "apply_agent_actions", "advance_timestep")
+
+
+def _game_receiver(f: ast.AST, in_game_class: bool) -> bool:
+    """`self.game.<m>` / `<x>.game.<m>` anywhere, `self.<m>` inside `PrimaiteGame` itself"""
+    if not isinstance(f, ast.Attribute):
+        return False
+    r = _u(f.value)
+    return r.endswith(".game") or r == "game" or (in_game_class and r == "self")
+
+
+def step_loops() -> List[tuple]:
+    """The loop of ONE step of an episode, wherever it is written: every function of src/primaite that calls the game's
+    `apply_agent_actions()` or `advance_timestep()` (`PrimaiteGame.step`, `PrimaiteGymEnv.step`, `PrimaiteRayMARLEnv.step`), with
+    its calls of pre_timestep / apply_agent_actions / advance_timestep in source order.  A call that is not a plain top-level
+    statement of the function (under an `if` / loop / `try` / `with`, or part of a larger expression) is marked `(conditional)`:
+    the tick of the property is the step, and the reset must be the unconditional first of the three."""
+    out = []
+    for rel in _py_files(""):
+        tree = parse(rel)
+        for cls in [n for n in ast.walk(tree) if isinstance(n, ast.ClassDef)] + [None]:
+            fns = [f for f in (cls.body if cls is not None else tree.body) if isinstance(f, (ast.FunctionDef, ast.AsyncFunctionDef))]
+            for fn in fns:
+                in_game = cls is not None and cls.name == "PrimaiteGame"
+                top = {id(st.value) for st in _body(fn) if isinstance(st, ast.Expr)}
+                calls = []
+                for n in ast.walk(fn):
+                    if isinstance(n, ast.Call) and isinstance(n.func, ast.Attribute) and n.func.attr in STEP_CALLS \
+                            and _game_receiver(n.func, in_game):
+                        calls.append((n.lineno, n.col_offset, n.func.attr + ("" if id(n) in top else " (conditional)")))
+                names = [c[2] for c in sorted(calls)]
+                if any(x.split()[0] in ("apply_agent_actions", "advance_timestep") for x in names):
+                    out.append((f"{rel.split('/')[-1]}:{(cls.name + '.') if cls is not None else ''}{fn.name}", names))
+    return sorted(out)
+
+
+def timestep_drivers() -> List[str]:
+    """Every call in src/primaite of `pre_timestep` / `apply_timestep` on a *simulation* or *network* object (the calls that open
+    and that run a tick of the whole simulation), by enclosing function."""
+    out = set()
+    for rel in _py_files(""):
+        tree = parse(rel)
+        where = _enclosing(tree)
+        for n in ast.walk(tree):
+            if isinstance(n, ast.Call) and isinstance(n.func, ast.Attribute) and n.func.attr in ("pre_timestep", "apply_timestep"):
+                r = _u(n.func.value)
+                if r.split(".")[-1] in ("simulation", "sim", "network", "net"):
+                    out.add(f"{_site(rel, where[n])}:{r}.{n.func.attr}")
+    return sorted(out)
+
+
 def link_construction_sites() -> List[str]:
     out = set()
     for rel in _py_files(""):
@@ -784,5 +835,11 @@ def sizeEvaluations : List (String × Nat) := [{", ".join(f'("{n}", {k})' for n,
 `_capture_traffic`, `PacketCapture.capture_outbound`) writes on the frame, and which methods of the frame it calls -/
 def frameWritesBetweenAdmissionAndAccounting : List String := {lst(szw["writes"])}
 def frameCallsBetweenAdmissionAndAccounting : List String := {lst(szw["calls"])}
+/-- the loop of one step of an episode wherever it is written (every function that calls the game's `apply_agent_actions` or
+`advance_timestep`): its calls of pre_timestep / apply_agent_actions / advance_timestep in source order; `(conditional)` = not a
+plain top-level statement of the function -/
+def stepLoops : List (String × List String) := [{", ".join(f'("{n}", {lst(st)})' for n, st in step_loops())}]
+/-- every call of `pre_timestep` / `apply_timestep` on a simulation / network object -/
+def timestepDrivers : List String := {lst(timestep_drivers())}
 end Primaite.Gen.Link
 """
